@@ -24,18 +24,19 @@ import (
 
 // Options configure one supervised check.
 type Options struct {
-	Tier      string
-	Seed      uint64
-	Workers   int
-	Evidence  string
-	Findings  string
-	ReplayDir string
-	Scratch   string
-	TreeHash  string
-	Runs      int64 // override plan
-	WorkerEnv []string
-	NoShrink  bool
-	chunk     int64
+	Tier          string
+	Seed          uint64
+	Workers       int
+	Evidence      string
+	Findings      string
+	ReplayDir     string
+	Scratch       string
+	TreeHash      string
+	Runs          int64 // override plan
+	WorkerEnv     []string
+	NoShrink      bool
+	chunk         int64
+	freshPerChunk bool
 }
 
 // DeathClassifier lets an engine turn a dead worker into a violation.
@@ -57,6 +58,12 @@ type PayloadRunner interface {
 // recurs at least once, with the count written into the replay file.
 type StatisticalReplayer interface {
 	StatisticalReplay() bool
+}
+
+// FreshPerChunk is implemented by an engine that wants every chunk of runs
+// executed by a new worker process.
+type FreshPerChunk interface {
+	FreshWorkerPerChunk() bool
 }
 
 // EvidenceExtra lets an engine add measured fields derived from the merged
@@ -318,6 +325,9 @@ func Supervise(e Engine, opt *Options) int {
 	}
 	nChunks := (total + chunk - 1) / chunk
 	opt.chunk = chunk
+	if f, ok := e.(FreshPerChunk); ok {
+		opt.freshPerChunk = f.FreshWorkerPerChunk()
+	}
 	fmt.Printf("verif %s tier=%s VERIF_SEED=%d runs=%d workers=%d chunk=%d\n", e.ID(), opt.Tier, opt.Seed, total, W, chunk)
 	results := make([]*merged, nChunks)
 	var wg sync.WaitGroup
@@ -341,7 +351,15 @@ func Supervise(e Engine, opt *Options) int {
 					p.stop()
 				}
 			}()
+			fpc := false
+			if f, ok := e.(FreshPerChunk); ok {
+				fpc = f.FreshWorkerPerChunk()
+			}
 			for c := w; c < nChunks; c += W {
+				if fpc && p != nil {
+					p.stop()
+					p = nil
+				}
 				m := &merged{stats: map[string]int64{}, max: map[string]int64{}, tuples: map[string]struct{}{}, hashes: map[uint64]struct{}{}}
 				results[c] = m
 				start, end := c*chunk, (c+1)*chunk
@@ -679,6 +697,9 @@ func historyOf(opt *Options, idx int64) [][2]int64 {
 		return nil
 	}
 	c := idx / opt.chunk
+	if opt.freshPerChunk {
+		return [][2]int64{{c * opt.chunk, idx + 1}}
+	}
 	W := int64(opt.Workers)
 	var out [][2]int64
 	for k := c % W; k < c; k += W {
